@@ -29,7 +29,10 @@ LEVEL_NOTE = ('theorems are about Model/Deriv.v + Gen/DerivExprs.v; the nodal tr
               'modelled here: identities that need them (curl grad = 0, div grad = laplacian, wind round trip) are proved from the abstract '
               'hypotheses H_sec2 (checked as table obligations on every basis vector) and evaluated as oracles on the implementation. '
               'Measured: with the default clip=True these hold only for fields whose top TWO total wavenumbers vanish (degree <= L-3); '
-              'for degree L-2 the round trip needs vor_div_to_uv_nodal(clip=False).')
+              'for degree L-2 the round trip needs vor_div_to_uv_nodal(clip=False) (both ranges are oracles, on random fields and on every '
+              'basis vector; C02_grad_top_clipped proves which coefficient the default clip removes). Negative control (documented, not an '
+              'oracle): Grid(longitude_wavenumbers=2,total_wavenumbers=3,longitude_nodes=8,latitude_nodes=6), vorticity = one-hot at '
+              'm=+1,l=1 (=L-2): default clips return 0.75 instead of 1 at that coefficient; clip=(False,True) returns 1 to 1e-14.')
 
 _state = {}
 
